@@ -18,6 +18,16 @@ pub(crate) struct Metadata {
     pub(crate) checksum: u64,
 }
 
+/// Decode an entry header from the bytes stored after its 2-byte length prefix.
+/// Returns `None` unless the bytes are a structurally valid archive: they come from
+/// disk and may have been damaged, so they are validated instead of trusted.
+pub(crate) fn decode_metadata(bytes: &[u8]) -> Option<Metadata> {
+    let mut aligned = rkyv::AlignedVec::with_capacity(bytes.len());
+    aligned.extend_from_slice(bytes);
+    let archived = rkyv::check_archived_root::<Metadata>(&aligned[..]).ok()?;
+    archived.deserialize(&mut rkyv::Infallible).ok()
+}
+
 #[derive(Clone, Debug)]
 pub struct Block {
     pub(crate) id: u64,
@@ -96,17 +106,23 @@ impl Block {
         let mut aligned = rkyv::AlignedVec::with_capacity(meta_len);
         aligned.extend_from_slice(&meta_buffer[2..2 + meta_len]);
 
-        // SAFETY: `aligned` contains bytes we just read from our own file format.
-        // We bounded `meta_len` to PREFIX_META_SIZE and copy into an `AlignedVec`,
-        // which satisfies alignment requirements of rkyv.
-        let archived = unsafe { rkyv::archived_root::<Metadata>(&aligned[..]) };
-        let meta: Metadata = archived.deserialize(&mut rkyv::Infallible).map_err(|_| {
+        // The bytes come from disk and may be damaged: validate them before use.
+        let meta: Metadata = decode_metadata(&aligned[..]).ok_or_else(|| {
             std::io::Error::new(
                 std::io::ErrorKind::InvalidData,
                 "failed to deserialize metadata",
             )
         })?;
         let actual_entry_size = meta.read_size;
+        // An entry never extends past its block; a size that says otherwise is corrupt
+        // (and must not be used to allocate or to read past the end of the file).
+        let end = (in_block_offset as u128) + (PREFIX_META_SIZE as u128) + (actual_entry_size as u128);
+        if end > self.limit as u128 {
+            return Err(std::io::Error::new(
+                std::io::ErrorKind::InvalidData,
+                "entry size exceeds its block",
+            ));
+        }
 
         // Read the actual data
         let new_offset = file_offset + PREFIX_META_SIZE as u64;
